@@ -4,7 +4,7 @@ use std::ops::Add;
 
 pub type E = i32;
 
-#[derive(Clone, Debug, PartialEq, Eq, Hash, PartialOrd, Ord, Default)]
+#[derive(Clone, Debug, PartialEq, Eq, PartialOrd, Ord, Default)]
 pub enum V {
   #[default]
   U,
@@ -12,6 +12,36 @@ pub enum V {
   B(bool),
   P(Box<V>, Box<V>),
   L(Vec<V>),
+}
+
+/// `Hash` is deliberately coarser than `Eq` (legal: equal values hash equally): a pair hashes
+/// only its first component, a list only its length and first element. Library code that
+/// compares hashes where it should compare values is thereby observable.
+impl std::hash::Hash for V {
+  fn hash<H: std::hash::Hasher>(&self, h: &mut H) {
+    match self {
+      V::U => 0u8.hash(h),
+      V::I(i) => {
+        1u8.hash(h);
+        i.hash(h)
+      }
+      V::B(b) => {
+        2u8.hash(h);
+        b.hash(h)
+      }
+      V::P(a, _) => {
+        3u8.hash(h);
+        a.hash(h)
+      }
+      V::L(l) => {
+        4u8.hash(h);
+        l.len().hash(h);
+        if let Some(x) = l.first() {
+          x.hash(h)
+        }
+      }
+    }
+  }
 }
 
 impl V {
